@@ -209,6 +209,12 @@ inline void dump_current_case(const char *kind) {
   write_file(name, r.current_text);
   // async-signal-unsafe in theory (stdio); we are dying anyway
   fprintf(stderr, "\nVERIF-CRASH kind=%s replay=%s\n", kind, name);
+  if (!strcmp(kind, "hang")) {
+    // called from the watchdog thread while the main thread may still be running: do not touch stats(),
+    // leave a marker next to the stats file instead (the driver picks it up)
+    if (!r.out_path.empty()) write_file(r.out_path + ".hang", name);
+    return;
+  }
   stats().failures.push_back(name);
   stats().failure_msgs.push_back(std::string("process died: ") + kind);
   write_stats();
